@@ -181,7 +181,10 @@ edn_value_t* edn_read_metadata(edn_parser_t* parser) {
         }
         size_t merged_count = new_entries_count;
 
-        /* Then, copy existing entries that don't have matching keys in new metadata */
+        /* Then, copy existing entries that don't have matching keys in new metadata.
+         * Comparing keys decodes strings lazily; if the arena refuses such a request the
+         * comparison cannot be trusted. */
+        size_t refused_before = edn_arena_failed_requests(parser->arena);
         for (size_t i = 0; i < existing_count; i++) {
             edn_value_t* existing_key = existing_meta->as.map.keys[i];
 
@@ -200,6 +203,11 @@ edn_value_t* edn_read_metadata(edn_parser_t* parser) {
                 merged_values[merged_count] = existing_meta->as.map.values[i];
                 merged_count++;
             }
+        }
+        if (edn_arena_failed_requests(parser->arena) != refused_before) {
+            parser->error = EDN_ERROR_OUT_OF_MEMORY;
+            parser->error_message = "Out of memory merging metadata";
+            return NULL;
         }
 
         /* Update the existing metadata map in place */
